@@ -979,6 +979,9 @@ class CoseContext(AbstractContext):
                     # detach payload
                     msg_dec = cbor2.loads(msg_enc)
                     tgt_blk.setfieldval('btsd', msg_dec[2])
+                    # a parsed payload would put the plaintext back
+                    # when the block is built
+                    tgt_blk.remove_payload()
                     msg_dec[2] = None
 
                 elif keyops.WrapOp in sop.priv_key.key_ops:
@@ -1013,6 +1016,9 @@ class CoseContext(AbstractContext):
                     # detach payload
                     msg_dec = cbor2.loads(msg_enc)
                     tgt_blk.setfieldval('btsd', msg_dec[2])
+                    # a parsed payload would put the plaintext back
+                    # when the block is built
+                    tgt_blk.remove_payload()
                     msg_dec[2] = None
 
                 else:
